@@ -331,6 +331,29 @@ pub fn gen_tree_seq(rng: &mut Rng, cfg: &TreeGenCfg) -> (Seq, String) {
     } else if mapping < 70 {
         // top of the range
         (0..d as u128).map(|k| table_cap - k).collect()
+    } else if mapping < 76 && table_cap >= (1 << 9) {
+        // classes of symbols that agree in their low bits (c, c + 2^b, c + 2*2^b, ...): whatever is keyed by a
+        // truncated symbol confuses them
+        let b = *rng.pick(&[8u32, 16, 20, 24, 32, 40]);
+        let step: u128 = if table_cap / 2 >= (1u128 << b) { 1u128 << b } else { 1u128 << 8 };
+        let bases = rng.urange(1, 4) as u128;
+        let mut set = std::collections::BTreeSet::new();
+        let mut k: u128 = 0;
+        while set.len() < d {
+            let v = (k % bases) + (k / bases) * step;
+            if v <= table_cap {
+                set.insert(v);
+            } else {
+                // out of room in this class layout: fall back to dense values
+                let mut x = 0u128;
+                while set.len() < d {
+                    set.insert(x);
+                    x += 1;
+                }
+            }
+            k += 1;
+        }
+        set.into_iter().collect()
     } else if mapping < 85 {
         // powers of four and their neighbours, clipped
         let mut set = std::collections::BTreeSet::new();
